@@ -112,6 +112,49 @@ def _shuffle_segment(rng, seg):
     return out
 
 
+def key_of(piece):
+    """the name token of a named occurrence: `--name` / `-n` (without an attached value)"""
+    it = piece.items[0]
+    if it.startswith(b"--"):
+        return it.split(b"=")[0]
+    return it[:1] + it[1:].decode("utf-8", "ignore")[:1].encode()
+
+
+def move_outer(rng, pieces):
+    """Move ONE named occurrence of a level that has a subcommand entered to another place between the command name
+    that entered its level and `--`, in particular to the right of the NEXT command name: a level claims its options
+    wherever they stand (C08), so the outcome must not change.  Occurrences whose name token also occurs elsewhere
+    on the line stay (their mutual order matters)."""
+    names = [i for i, p in enumerate(pieces) if p.kind == "cmdname"]
+    if not names:
+        return None
+    end = next((i for i, p in enumerate(pieces) if p.kind in ("dd", "rpos")), len(pieces))
+    deepest = max(pieces[i].level for i in names) + 1
+    cands = []
+    for i in range(0, end):
+        p = pieces[i]
+        if p.kind != "chunk" or p.chunk.kind != "named" or p.level >= deepest:
+            continue
+        k = key_of(p)
+        if sum(1 for q in pieces if q.kind == "chunk" and q.chunk.kind == "named" and key_of(q) == k) > 1:
+            continue
+        if sum(1 for q in pieces if q.kind == "chunk" and q.chunk.group == p.chunk.group) > 1:
+            continue            # occurrences feeding one field keep their order
+        cands.append(i)
+    if not cands:
+        return None
+    i = rng.choice(cands)
+    p = pieces[i]
+    rest = pieces[:i] + pieces[i + 1:]
+    end -= 1
+    entered = [j for j, q in enumerate(rest) if q.kind == "cmdname" and q.level == p.level - 1]
+    lo = entered[0] + 1 if entered else 0
+    if end < lo:
+        return None
+    at = rng.randrange(lo, end + 1)
+    return rest[:at] + [p] + rest[at:]
+
+
 def has_kind(p, kinds):
     return any(x["k"] in kinds for x in gen.walk(p))
 
